@@ -3,7 +3,7 @@ from mirsym.harness import Check
 from . import scen
 from .C01 import ASSUME
 
-QUICK = ["catch_act", "catch_step", "catch_empty", "catch_nomatch_then_step", "catch_two_codes", "catch_outer_step_branch", "catch_none", "catch_all_and_code", "two_if", "catch_nested_par", "catch_in_catch"]
+QUICK = ["catch_act", "catch_step", "catch_empty", "catch_nomatch_then_step", "catch_two_codes", "catch_outer_step_branch", "catch_none", "catch_all_and_code", "two_if", "catch_nested_par", "catch_in_catch", "catch_multi_step"]
 
 
 def main(tier, seed):
